@@ -32,10 +32,15 @@ func (m *Mutex) Lock() {
 		m.real.Lock()
 		return
 	}
-	vrt.Wait("Mutex.Lock", func() bool { return !m.held })
+	vrt.Wait("Mutex.Lock", (*mutexFree)(m))
 	m.held = true
 	m.real.Lock()
 }
+
+type mutexFree Mutex
+
+//go:norace
+func (m *mutexFree) Ready() bool { return !m.held }
 
 //go:norace
 func (m *Mutex) TryLock() bool {
@@ -96,16 +101,26 @@ func (m *RWMutex) Lock() {
 		return
 	}
 	// phase 1: writer slot
-	vrt.Wait("RWMutex.Lock", func() bool { return !m.writerSlot })
+	vrt.Wait("RWMutex.Lock", (*rwSlotFree)(m))
 	m.writerSlot = true
 	m.readerWait = m.readers
 	if m.readerWait > 0 {
 		// phase 2: wait for the readers active at the announcement
-		vrt.Wait("RWMutex.Lock(waiting for readers)", func() bool { return m.readerWait == 0 })
+		vrt.Wait("RWMutex.Lock(waiting for readers)", (*rwDrained)(m))
 	}
 	m.writing = true
 	m.real.Lock()
 }
+
+type rwSlotFree RWMutex
+
+//go:norace
+func (m *rwSlotFree) Ready() bool { return !m.writerSlot }
+
+type rwDrained RWMutex
+
+//go:norace
+func (m *rwDrained) Ready() bool { return m.readerWait == 0 }
 
 //go:norace
 func (m *RWMutex) TryLock() bool {
@@ -151,7 +166,7 @@ func (m *RWMutex) RLock() {
 		m.real.RLock()
 		return
 	}
-	vrt.Wait("RWMutex.RLock", func() bool { return !m.writerSlot })
+	vrt.Wait("RWMutex.RLock", (*rwSlotFree)(m))
 	m.readers++
 	m.real.RLock()
 }
@@ -240,9 +255,14 @@ func (w *WaitGroup) Wait() {
 		w.real.Wait()
 		return
 	}
-	vrt.Wait("WaitGroup.Wait", func() bool { return w.n == 0 })
+	vrt.Wait("WaitGroup.Wait", (*wgZero)(w))
 	w.real.Wait()
 }
+
+type wgZero WaitGroup
+
+//go:norace
+func (w *wgZero) Ready() bool { return w.n == 0 }
 
 // ---------------------------------------------------------------- Once
 
@@ -257,10 +277,13 @@ func (o *Once) Do(f func()) {
 	o.m.Lock()
 	defer o.m.Unlock()
 	if !o.done {
-		defer func() { o.done = true }()
+		defer o.markDone()
 		f()
 	}
 }
+
+//go:norace
+func (o *Once) markDone() { o.done = true }
 
 // ---------------------------------------------------------------- Cond
 //
@@ -276,6 +299,9 @@ type Cond struct {
 }
 
 type condWaiter struct{ woken bool }
+
+//go:norace
+func (w *condWaiter) Ready() bool { return w.woken }
 
 func NewCond(l Locker) *Cond { return &Cond{L: l} }
 
@@ -294,7 +320,7 @@ func (c *Cond) Wait() {
 	c.waiters[c.nw] = w
 	c.nw++
 	c.L.Unlock()
-	vrt.Wait("Cond.Wait", func() bool { return w.woken })
+	vrt.Wait("Cond.Wait", w)
 	c.tok.Lock() // acquire edge from the notifier's release
 	c.tok.Unlock()
 	c.L.Lock()
